@@ -197,12 +197,9 @@ func (db *GoBadgerDB) Iterator(start, end []byte, reverse bool) Iterator {
 	if bytes.Equal(end, types.EmptyValue) {
 		end = nil
 	}
-	if reverse {
-		it.Seek(end)
-	} else {
-		it.Seek(start)
-	}
-	return &goBadgerDBIt{it, itBase{start, end, reverse}, txn, nil}
+	bit := &goBadgerDBIt{it, itBase{start, end, reverse}, txn, nil}
+	bit.Rewind()
+	return bit
 }
 
 type goBadgerDBIt struct {
@@ -221,7 +218,11 @@ func (it *goBadgerDBIt) Next() bool {
 // Rewind ...
 func (it *goBadgerDBIt) Rewind() bool {
 	if it.reverse {
-		it.Seek(it.end)
+		it.Iterator.Seek(it.end)
+		// end is exclusive, as in the leveldb backend
+		if it.end != nil && it.Iterator.Valid() && bytes.Equal(it.Key(), it.end) {
+			it.Iterator.Next()
+		}
 	} else {
 		it.Seek(it.start)
 	}
@@ -242,7 +243,12 @@ func (it *goBadgerDBIt) Close() {
 
 // Valid 是否合法
 func (it *goBadgerDBIt) Valid() bool {
-	return it.Iterator.Valid() && it.checkKey(it.Key())
+	if !it.Iterator.Valid() {
+		return false
+	}
+	key := it.Key()
+	// end is exclusive, as in the leveldb backend
+	return it.checkKey(key) && (it.end == nil || !bytes.Equal(key, it.end))
 }
 
 func (it *goBadgerDBIt) Key() []byte {
